@@ -55,7 +55,7 @@ class Current(pd.Series):
         if isinstance(other, Current):
             return Current(self.add(other, fill_value=0))
         else:
-            TypeError("Must be of type Current.")
+            raise TypeError("Must be of type Current.")
 
     # Allow for right addition as well.
     __radd__ = __add__
@@ -69,3 +69,16 @@ class Current(pd.Series):
             Current: self - other
         """
         return Current(self.add(-1 * other, fill_value=0))
+
+    def __mul__(self, other):
+        """ Return Current which is self scaled by the scalar other.
+
+        Args:
+            other (number): Scalar to multiply each coefficient by.
+        Returns:
+            Current: self * other
+        """
+        return Current(pd.Series(self).mul(other))
+
+    # Allow for left multiplication by a scalar as well.
+    __rmul__ = __mul__
